@@ -272,11 +272,22 @@ func c01Life(c *vlib.Ctx, lo, hi int) {
 					ops = append(ops, "DESTROY")
 				case x == 1 && j >= n/2:
 					ops = append(ops, "DESTROY-FORCE")
+				case x == 2 && j == n-1:
+					// the request type DEPLOY exists in the API although no client sends it for an environment
+					// that is already deployed: never legal here
+					ops = append(ops, "DEPLOY")
+					c.Count("deploy_requests_on_deployed_environments", 1)
 				default:
 					ops = append(ops, c01Ops[r.Intn(len(c01Ops))].String())
 				}
 			}
 			h.Ops = append(h.Ops, ops)
+		}
+		if i%9 == 4 {
+			// a lone DEPLOY request as the only illegal one of the history: from CONFIGURED, RUNNING, DEPLOYED
+			h.Clients = 1
+			h.Ops = [][]string{[][]string{{"DEPLOY"}, {"START_ACTIVITY", "DEPLOY"}, {"RESET", "DEPLOY"}}[(i/9)%3]}
+			c.Count("histories_with_a_lone_deploy_request", 1)
 		}
 		id := c.Case(h)
 		lastID, lastW = id, h
